@@ -1001,7 +1001,7 @@ func SpecRdbBuffered(r *memoryRdb) int64 { panic("abstract spec function") }
 //@ func MemoryChannel.finishRdb
 //@   arith int
 //@   properties C05 C16
-//@   replay syncer_incompleteSnapshotOffered syncer_interruptedSnapshot
+//@   replay syncer_incompleteSnapshotOffered
 //@   requires nonnil: mc != nil && writer != nil && writer.rdb != nil
 //@   modifies heap
 //@   ensures only_a_completely_received_snapshot_stays_on_offer: mc.rdb != nil && mc.rdb == old(writer.rdb) ==> SpecRdbBuffered(old(writer.rdb)) == old(writer.rdb.size)
